@@ -68,6 +68,9 @@ func truncate(s *slip.Scope, f slip.Object, args slip.List, depth int) slip.Valu
 		div = args[1]
 	}
 	num, div = slip.NormalizeNumber(num, div)
+	if fd, ok := div.(slip.Fixnum); ok && fd == 0 {
+		slip.DivisionByZeroPanic(s, depth, slip.Symbol("truncate"), args, "divide by zero")
+	}
 	switch tn := num.(type) {
 	case slip.Fixnum:
 		q = tn / div.(slip.Fixnum)
